@@ -446,3 +446,227 @@ Proof.
     + exact Q1.
     + exact Q2.
 Qed.
+
+(** * 6. Induction over heights along the two committed chains *)
+Lemma hchain_pred init top l : hchain init top l ->
+  forall h e, In (h, e) l -> init < h -> exists e', In (h - 1, e') l.
+Proof.
+  induction 1 as [x cp Hx|h0 x cp px pcp l Hc IH Hh Hp Hb]; intros h e Hin Hlt.
+  - destruct Hin as [E|[]]. inversion E; subst. lia.
+  - destruct Hin as [E|Hin].
+    + inversion E; subst. exists (px, pcp). right. left. replace (h0 + 1 - 1) with h0 by lia. reflexivity.
+    + destruct (IH h e Hin Hlt) as (e' & He'). exists e'. right. exact He'.
+Qed.
+
+Lemma hchain_find init top l h x cp : hchain init top l -> In (h, (x, cp)) l ->
+  find (fun e : N * (hdr * cproof) => fst e =? h) l = Some (h, (x, cp)).
+Proof.
+  intros Hc Hin. destruct (find _ l) as [[h' y]|] eqn:Ef.
+  - apply find_some in Ef as [Hy E]. cbn in E. apply N.eqb_eq in E. subst h'.
+    rewrite (one_header_per_height _ _ _ Hc h y (x, cp) Hy Hin). reflexivity.
+  - pose proof (find_none _ _ Ef _ Hin) as E. cbn in E. rewrite N.eqb_refl in E. discriminate.
+Qed.
+
+Lemma chain_vals_init ih ivs l : chain_vals ih ivs l ih = ivs.
+Proof. unfold chain_vals. rewrite N.eqb_refl. reflexivity. Qed.
+
+Lemma chain_vals_succ ih ivs top l h px pcp :
+  hchain ih top l -> ih < h -> In (h - 1, (px, pcp)) l -> chain_vals ih ivs l h = hd_next px.
+Proof.
+  intros Hc Hlt Hin. unfold chain_vals. destruct (N.eqb_spec h ih); [lia|].
+  rewrite (hchain_find _ _ _ _ _ _ Hc Hin). reflexivity.
+Qed.
+
+Lemma stored_hchain ih ivs s e :
+  1 <= ih -> vs_ok ivs = true -> reachable_b ih ivs s -> In e (st_hdrs s) ->
+  exists top, hchain ih top (st_hdrs s).
+Proof.
+  intros Hi Hok Hr Hin. pose proof (reachable_cinv ih ivs s Hi Hok Hr) as Hc.
+  pose proof (heights_contiguous_and_linked ih ivs s Hc) as H. destruct (k_chdr s) as [ch|].
+  - eexists; exact H.
+  - rewrite H in Hin. destruct Hin.
+Qed.
+
+(** ** The global signature list and the hypotheses *)
+
+(** the ideal signatures occurring in a node's committed certificates (the entries filed under
+    the committed headers' own hashes) *)
+Definition cert_sigs (s : kstate) : list sigd :=
+  flat_map (fun e : N * (hdr * cproof) =>
+    flat_map (fun en : bytes * list ssig =>
+                if bytes_eqb (fst en) (hd_hash (fst (snd e))) then map ss_sig (snd en) else [])
+             (cp_proofs (snd (snd e)))) (st_hdrs s).
+
+(** [V] records at least those *)
+Definition cert_sigs_in (V : list sigd) (s : kstate) : Prop :=
+  forall h x cp, In (h, (x, cp)) (st_hdrs s) -> covers_cert V x cp.
+
+Lemma cert_sigs_covers V s : (forall sg, In sg (cert_sigs s) -> In sg V) -> cert_sigs_in V s.
+Proof.
+  intros H h x cp Hin sigs ss He Hs. apply H. unfold cert_sigs.
+  apply in_flat_map. exists (h, (x, cp)). split; [exact Hin|].
+  apply in_flat_map. exists (hd_hash x, sigs). split; [exact He|].
+  cbn [fst snd]. rewrite bytes_eqb_refl. apply in_map. exact Hs.
+Qed.
+
+(** "The hash binds the content" (the harness's [hd_ok] convention: a header whose flag is set
+    carries the hash scheme's hash of its fields, among them the hashes of the next validator
+    set).  Exactly what is needed: two committed headers of one height whose hash flags are set and
+    whose hashes are equal name equal next validator sets (tmconsensus.ValidatorSet.Equal). *)
+Definition hash_binds_next (s1 s2 : kstate) : Prop :=
+  forall h x1 cp1 x2 cp2, In (h, (x1, cp1)) (st_hdrs s1) -> In (h, (x2, cp2)) (st_hdrs s2) ->
+    hd_ok x1 = true -> hd_ok x2 = true -> hd_hash x1 = hd_hash x2 ->
+    valset_equal (hd_next x1) (hd_next x2) = true.
+
+(** what is assumed at one height both nodes committed: the Byzantine bound, A1, and either the two
+    certificates are of the same round or A2 and A3 hold *)
+Definition hyps_at (vs : valset) (Bh : list N) (V : list sigd) (h : N) (cp1 cp2 : cproof) : Prop :=
+  byz_bound vs Bh /\ A1m vs Bh V h /\
+  (cp_round cp1 = cp_round cp2 \/ (A2m vs Bh V h /\ A3m vs Bh V h)).
+
+Definition agree_concl (ih : N) (ivs : valset) (s1 s2 : kstate) (h : N) (x1 x2 : hdr) : Prop :=
+  hd_hash x1 = hd_hash x2 /\
+  valset_equal (hd_next x1) (hd_next x2) = true /\
+  vs_keys (chain_vals ih ivs (st_hdrs s1) h) = vs_keys (chain_vals ih ivs (st_hdrs s2) h) /\
+  vs_pows (chain_vals ih ivs (st_hdrs s1) h) = vs_pows (chain_vals ih ivs (st_hdrs s2) h).
+
+(** one height, given that the two chains prescribe the same validators and powers for it *)
+Lemma agree_core ih ivs s1 s2 V Bh h x1 cp1 x2 cp2 :
+  1 <= ih -> vs_ok ivs = true -> reachable_b ih ivs s1 -> reachable_b ih ivs s2 ->
+  cert_sigs_in V s1 -> cert_sigs_in V s2 -> hash_binds_next s1 s2 ->
+  In (h, (x1, cp1)) (st_hdrs s1) -> In (h, (x2, cp2)) (st_hdrs s2) ->
+  vs_keys (chain_vals ih ivs (st_hdrs s1) h) = vs_keys (chain_vals ih ivs (st_hdrs s2) h) ->
+  vs_pows (chain_vals ih ivs (st_hdrs s1) h) = vs_pows (chain_vals ih ivs (st_hdrs s2) h) ->
+  hyps_at (chain_vals ih ivs (st_hdrs s1) h) Bh V h cp1 cp2 ->
+  agree_concl ih ivs s1 s2 h x1 x2.
+Proof.
+  intros Hi Hok R1 R2 C1 C2 Hbind I1 I2 Hk Hp (Hbound & HA1 & Hrest).
+  pose proof (proj1 (commit_needs_certificate ih ivs s1 Hi Hok R1) _ _ _ I1) as Ce1.
+  pose proof (proj1 (commit_needs_certificate ih ivs s2 Hi Hok R2) _ _ _ I2) as Ce2.
+  destruct (committed_headers_good ih ivs s1 Hi Hok R1 _ _ _ I1) as (N1 & O1 & _).
+  destruct (committed_headers_good ih ivs s2 Hi Hok R2 _ _ _ I2) as (N2 & O2 & _).
+  assert (Eh : hd_hash x1 = hd_hash x2).
+  { eapply (agree_at_height _ _ Bh V h x1 cp1 x2 cp2 Hk Hp Ce1 Ce2); try eassumption.
+    - eapply C1; exact I1.
+    - eapply C2; exact I2. }
+  split; [exact Eh|]. split; [|split; assumption].
+  eapply Hbind; eassumption.
+Qed.
+
+(** (iii) THE GENERAL FORM: agreement at height [h] from the hypotheses at the common heights up to
+    [h] (at each of them: same round, or A2 and A3). *)
+Theorem mirrors_agree_upto ih ivs s1 s2 V (B : N -> list N) :
+  1 <= ih -> vs_ok ivs = true -> reachable_b ih ivs s1 -> reachable_b ih ivs s2 ->
+  cert_sigs_in V s1 -> cert_sigs_in V s2 -> hash_binds_next s1 s2 ->
+  forall h,
+  (forall h' x1 cp1 x2 cp2, h' <= h ->
+     In (h', (x1, cp1)) (st_hdrs s1) -> In (h', (x2, cp2)) (st_hdrs s2) ->
+     hyps_at (chain_vals ih ivs (st_hdrs s1) h') (B h') V h' cp1 cp2) ->
+  forall x1 cp1 x2 cp2, In (h, (x1, cp1)) (st_hdrs s1) -> In (h, (x2, cp2)) (st_hdrs s2) ->
+    agree_concl ih ivs s1 s2 h x1 x2.
+Proof.
+  intros Hi Hok R1 R2 C1 C2 Hbind h.
+  remember (N.to_nat (h - ih)) as n eqn:En. revert h En.
+  induction n as [|n IH]; intros h En Hyp x1 cp1 x2 cp2 I1 I2.
+  all: destruct (stored_hchain ih ivs s1 _ Hi Hok R1 I1) as (top1 & H1).
+  all: destruct (stored_hchain ih ivs s2 _ Hi Hok R2 I2) as (top2 & H2).
+  all: destruct (proj2 (hchain_bounds _ _ _ H1) _ _ I1) as [Hge _].
+  - assert (h = ih) by lia. subst h.
+    eapply agree_core; try eassumption.
+    + rewrite !chain_vals_init. reflexivity.
+    + rewrite !chain_vals_init. reflexivity.
+    + eapply Hyp; [lia|exact I1|exact I2].
+  - assert (Hlt : ih < h) by lia.
+    destruct (hchain_pred _ _ _ H1 _ _ I1 Hlt) as ([px1 pcp1] & P1).
+    destruct (hchain_pred _ _ _ H2 _ _ I2 Hlt) as ([px2 pcp2] & P2).
+    assert (Hprev : agree_concl ih ivs s1 s2 (h - 1) px1 px2).
+    { apply (IH (h - 1)) with (cp1 := pcp1) (cp2 := pcp2); [lia| |assumption|assumption].
+      intros h' y1 c1 y2 c2 Hle J1 J2. eapply Hyp; [lia|exact J1|exact J2]. }
+    destruct Hprev as (_ & Hve & _ & _). destruct (valset_equal_keys _ _ Hve) as [Ek Ep].
+    eapply agree_core; try eassumption.
+    + rewrite (chain_vals_succ ih ivs _ _ _ _ _ H1 Hlt P1), (chain_vals_succ ih ivs _ _ _ _ _ H2 Hlt P2). exact Ek.
+    + rewrite (chain_vals_succ ih ivs _ _ _ _ _ H1 Hlt P1), (chain_vals_succ ih ivs _ _ _ _ _ H2 Hlt P2). exact Ep.
+    + eapply Hyp; [lia|exact I1|exact I2].
+Qed.
+
+(** C03 for mirrors, all rounds: under A1, A2, A3 and the Byzantine bound at every height both
+    nodes committed, the two nodes' committed headers have the same hash at every such height -
+    and the same next validator set, and the two chains prescribe the same validators and powers. *)
+Theorem mirrors_agree ih ivs s1 s2 V (B : N -> list N) :
+  1 <= ih -> vs_ok ivs = true -> reachable_b ih ivs s1 -> reachable_b ih ivs s2 ->
+  cert_sigs_in V s1 -> cert_sigs_in V s2 -> hash_binds_next s1 s2 ->
+  (forall h x1 cp1 x2 cp2, In (h, (x1, cp1)) (st_hdrs s1) -> In (h, (x2, cp2)) (st_hdrs s2) ->
+     byz_bound (chain_vals ih ivs (st_hdrs s1) h) (B h) /\
+     A1m (chain_vals ih ivs (st_hdrs s1) h) (B h) V h /\
+     A2m (chain_vals ih ivs (st_hdrs s1) h) (B h) V h /\
+     A3m (chain_vals ih ivs (st_hdrs s1) h) (B h) V h) ->
+  forall h x1 cp1 x2 cp2, In (h, (x1, cp1)) (st_hdrs s1) -> In (h, (x2, cp2)) (st_hdrs s2) ->
+    hd_hash x1 = hd_hash x2 /\
+    valset_equal (hd_next x1) (hd_next x2) = true /\
+    vs_keys (chain_vals ih ivs (st_hdrs s1) h) = vs_keys (chain_vals ih ivs (st_hdrs s2) h) /\
+    vs_pows (chain_vals ih ivs (st_hdrs s1) h) = vs_pows (chain_vals ih ivs (st_hdrs s2) h).
+Proof.
+  intros Hi Hok R1 R2 C1 C2 Hbind Hyp h x1 cp1 x2 cp2 I1 I2.
+  apply (mirrors_agree_upto ih ivs s1 s2 V B Hi Hok R1 R2 C1 C2 Hbind h) with (cp1 := cp1) (cp2 := cp2);
+    [|assumption|assumption].
+  intros h' y1 c1 y2 c2 _ J1 J2. destruct (Hyp _ _ _ _ _ J1 J2) as (A & B1 & C & D).
+  split; [exact A|]. split; [exact B1|]. right. split; assumption.
+Qed.
+
+(** Same-round version, one height: A1 and the Byzantine bound suffice (weighted quorum overlap),
+    given that the two chains prescribe the same validators and powers for the height. *)
+Theorem mirrors_agree_same_round_at ih ivs s1 s2 V Bh h x1 cp1 x2 cp2 :
+  1 <= ih -> vs_ok ivs = true -> reachable_b ih ivs s1 -> reachable_b ih ivs s2 ->
+  cert_sigs_in V s1 -> cert_sigs_in V s2 ->
+  In (h, (x1, cp1)) (st_hdrs s1) -> In (h, (x2, cp2)) (st_hdrs s2) ->
+  vs_keys (chain_vals ih ivs (st_hdrs s1) h) = vs_keys (chain_vals ih ivs (st_hdrs s2) h) ->
+  vs_pows (chain_vals ih ivs (st_hdrs s1) h) = vs_pows (chain_vals ih ivs (st_hdrs s2) h) ->
+  cp_round cp1 = cp_round cp2 ->
+  byz_bound (chain_vals ih ivs (st_hdrs s1) h) Bh -> A1m (chain_vals ih ivs (st_hdrs s1) h) Bh V h ->
+  hd_hash x1 = hd_hash x2.
+Proof.
+  intros Hi Hok R1 R2 C1 C2 I1 I2 Hk Hp Er Hbound HA1.
+  pose proof (proj1 (commit_needs_certificate ih ivs s1 Hi Hok R1) _ _ _ I1) as Ce1.
+  pose proof (proj1 (commit_needs_certificate ih ivs s2 Hi Hok R2) _ _ _ I2) as Ce2.
+  destruct (committed_headers_good ih ivs s1 Hi Hok R1 _ _ _ I1) as (N1 & _).
+  destruct (committed_headers_good ih ivs s2 Hi Hok R2 _ _ _ I2) as (N2 & _).
+  eapply (agree_at_height _ _ Bh V h x1 cp1 x2 cp2 Hk Hp Ce1 Ce2); try eassumption.
+  - eapply C1; exact I1.
+  - eapply C2; exact I2.
+  - left. exact Er.
+Qed.
+
+(** at the initial height both chains prescribe the genesis set: no further premise *)
+Corollary mirrors_agree_same_round_genesis ih ivs s1 s2 V Bh x1 cp1 x2 cp2 :
+  1 <= ih -> vs_ok ivs = true -> reachable_b ih ivs s1 -> reachable_b ih ivs s2 ->
+  cert_sigs_in V s1 -> cert_sigs_in V s2 ->
+  In (ih, (x1, cp1)) (st_hdrs s1) -> In (ih, (x2, cp2)) (st_hdrs s2) ->
+  cp_round cp1 = cp_round cp2 ->
+  byz_bound ivs Bh -> A1m ivs Bh V ih ->
+  hd_hash x1 = hd_hash x2.
+Proof.
+  intros Hi Hok R1 R2 C1 C2 I1 I2 Er Hbound HA1.
+  eapply (mirrors_agree_same_round_at ih ivs s1 s2 V Bh ih x1 cp1 x2 cp2); try eassumption;
+    rewrite ?chain_vals_init; try reflexivity; assumption.
+Qed.
+
+(** Same-round version along the chain: if at every common height up to [h] the two certificates
+    are of the same round, A1 and the Byzantine bound (at those heights) give agreement at [h]. *)
+Theorem mirrors_agree_same_round ih ivs s1 s2 V (B : N -> list N) :
+  1 <= ih -> vs_ok ivs = true -> reachable_b ih ivs s1 -> reachable_b ih ivs s2 ->
+  cert_sigs_in V s1 -> cert_sigs_in V s2 -> hash_binds_next s1 s2 ->
+  forall h,
+  (forall h' x1 cp1 x2 cp2, h' <= h ->
+     In (h', (x1, cp1)) (st_hdrs s1) -> In (h', (x2, cp2)) (st_hdrs s2) ->
+     cp_round cp1 = cp_round cp2 /\
+     byz_bound (chain_vals ih ivs (st_hdrs s1) h') (B h') /\
+     A1m (chain_vals ih ivs (st_hdrs s1) h') (B h') V h') ->
+  forall x1 cp1 x2 cp2, In (h, (x1, cp1)) (st_hdrs s1) -> In (h, (x2, cp2)) (st_hdrs s2) ->
+    hd_hash x1 = hd_hash x2 /\ valset_equal (hd_next x1) (hd_next x2) = true.
+Proof.
+  intros Hi Hok R1 R2 C1 C2 Hbind h Hyp x1 cp1 x2 cp2 I1 I2.
+  destruct (mirrors_agree_upto ih ivs s1 s2 V B Hi Hok R1 R2 C1 C2 Hbind h) with (x1 := x1) (cp1 := cp1) (x2 := x2) (cp2 := cp2)
+    as (A & B1 & _); [|assumption|assumption|split; assumption].
+  intros h' y1 c1 y2 c2 Hle J1 J2. destruct (Hyp _ _ _ _ _ Hle J1 J2) as (A & B1 & C).
+  split; [exact B1|]. split; [exact C|]. left. exact A.
+Qed.
